@@ -1,6 +1,7 @@
 //! Generator-level families: determinism, shuffle_*, small_range_not_periodic, and the low-bit
 //! machine diagnostic.
 
+use crate::ints::{in_domain, range_len, Form, IntTy};
 use rayon::prelude::*;
 use rlib_rand::{Rand, Rng};
 use vcore::*;
@@ -269,51 +270,223 @@ pub fn confirm_shuffle(v: &Value) -> Result<(), String> {
 
 // ---------------------------------------------------------------------------------------------
 // serial structure
+//
+// One case = (integer type, range form, bounds) with a value set of n <= 2^16 values; for every seed of
+// the case the stream of `draws` consecutive `rng.next(range)` results must have no period p <= maxp,
+// where maxp = max(tier base, n) and draws >= 3 * maxp (a low-bits-of-a-counter generator repeats with
+// period n on a value set of n = 2^k values, so the search always reaches n).
 
-pub fn period_lens() -> Vec<usize> {
-    let mut v: Vec<usize> = (2..=16).collect();
-    v.extend([32, 64, 256]);
+/// Value-set sizes <= 256: every size up to 16, the powers of two, and 255 (the largest non power of two).
+pub const SMALL_LENS: [u128; 20] = [2, 3, 4, 5, 6, 7, 8, 9, 10, 11, 12, 13, 14, 15, 16, 32, 64, 128, 255, 256];
+/// Further sizes for the 16-bit types: the powers of two above 256 and 2^16 - 1.
+pub const MEDIUM_LENS: [u128; 8] = [512, 1024, 2048, 4096, 8192, 16384, 32768, 65535];
+
+#[derive(Clone, Debug)]
+pub struct PeriodCase {
+    pub ty: &'static str,
+    pub form: Form,
+    pub a: i128,
+    pub b: i128,
+    /// number of values of the range
+    pub n: u128,
+    pub draws: usize,
+    pub maxp: usize,
+    pub seeds: u64,
+}
+
+impl PeriodCase {
+    /// The `next(0..len)` cases on usize are the original family and keep their short label.
+    pub fn is_plain(&self) -> bool {
+        self.ty == "usize" && self.form == Form::Range && self.a == 0
+    }
+    pub fn label(&self) -> String {
+        if self.is_plain() {
+            format!("len={}", self.b)
+        } else {
+            format!("{}:{}", self.ty, self.form.show(self.a, self.b))
+        }
+    }
+    pub fn call(&self) -> String {
+        format!("next::<{}, _>({})", self.ty, self.form.show(self.a, self.b))
+    }
+}
+
+/// Stream budget of a tier: draws and max period for value sets of at most `maxp` values (larger value
+/// sets: max period = value count, draws = 3 periods), and the number of seeds [0, S) per case — for the
+/// plain `next(0..len)` cases on usize, for the other cases, and for the cases with longer streams.
+#[derive(Clone, Copy)]
+pub struct PeriodBudget {
+    pub seeds: u64,
+    pub seeds_forms: u64,
+    pub seeds_long: u64,
+    pub draws: usize,
+    pub maxp: usize,
+}
+
+/// The cases of one type: for every size n of the size list, every range FORM that denotes n values —
+/// `a..a+n` and `a..=a+n-1` for every start a in {0, MIN, 1} (the three branches of RangeInclusive),
+/// `..n`, `..=n-1` — and, for 8- and 16-bit types, the full-width forms `..`, `MIN..=MAX`, `..=MAX`.
+fn period_cases_of<T: IntTy>(budget: PeriodBudget, out: &mut Vec<PeriodCase>) {
+    let (mn, mx) = (T::min(), T::max());
+    let narrow = T::BITS <= 16;
+    let mut seen = std::collections::BTreeSet::new();
+    let mut put = |form: Form, a: i128, b: i128| {
+        if a < mn || a > mx || b < mn || b > mx || !in_domain::<T>(form, a, b) || !seen.insert((form, a, b)) {
+            return;
+        }
+        let n = range_len::<T>(form, a, b);
+        let plain = T::NAME == "usize" && form == Form::Range && a == 0;
+        let (draws, maxp, seeds) = if n as usize <= budget.maxp {
+            (budget.draws, budget.maxp, if plain { budget.seeds } else { budget.seeds_forms })
+        } else {
+            (3 * n as usize, n as usize, budget.seeds_long)
+        };
+        out.push(PeriodCase { ty: T::NAME, form, a, b, n, draws, maxp, seeds });
+    };
+    let mut lens: Vec<u128> = SMALL_LENS.to_vec();
+    if T::BITS == 16 {
+        lens.extend(MEDIUM_LENS);
+    }
+    for n in lens {
+        let n = n as i128;
+        for a in [0, mn, 1] {
+            put(Form::Range, a, a + n);
+            put(Form::Incl, a, a + n - 1);
+        }
+        put(Form::To, 0, n);
+        put(Form::ToIncl, 0, n - 1);
+    }
+    if narrow {
+        put(Form::Full, 0, 0);
+        put(Form::Incl, mn, mx);
+        put(Form::ToIncl, 0, mx);
+    }
+}
+
+/// All cases, simplest first: the plain `next(0..len)` cases, then type by type (narrowest first), each
+/// by size.
+pub fn period_cases(budget: PeriodBudget) -> Vec<PeriodCase> {
+    let mut v = vec![];
+    period_cases_of::<u8>(budget, &mut v);
+    period_cases_of::<i8>(budget, &mut v);
+    period_cases_of::<u16>(budget, &mut v);
+    period_cases_of::<i16>(budget, &mut v);
+    period_cases_of::<u32>(budget, &mut v);
+    period_cases_of::<i32>(budget, &mut v);
+    period_cases_of::<u64>(budget, &mut v);
+    period_cases_of::<i64>(budget, &mut v);
+    period_cases_of::<usize>(budget, &mut v);
+    period_cases_of::<isize>(budget, &mut v);
+    // stable: within one (type, size) the forms stay in the order they were generated
+    v.sort_by_key(|c| (!c.is_plain(), type_rank(c.ty), c.n));
     v
 }
 
-/// Smallest p <= maxp with s[i] == s[i+p] for all i, if any.
-pub fn min_period(s: &[usize], maxp: usize) -> Option<usize> {
-    (1..=maxp.min(s.len() - 1)).find(|&p| (0..s.len() - p).all(|i| s[i] == s[i + p]))
+fn type_rank(ty: &str) -> usize {
+    ["u8", "i8", "u16", "i16", "u32", "i32", "u64", "i64", "usize", "isize"].iter().position(|t| *t == ty).unwrap_or(99)
 }
 
-pub fn small_stream(seed: u64, len: usize, draws: usize) -> Result<Vec<usize>, String> {
+/// Smallest p <= maxp with s[i] == s[i+p] for all i, if any.  The smallest period of a sequence of
+/// length n is n minus its longest proper border (prefix function), so the search is linear.
+pub fn min_period<T: PartialEq>(s: &[T], maxp: usize) -> Option<usize> {
+    let n = s.len();
+    if n < 2 {
+        return None;
+    }
+    let mut border = vec![0u32; n];
+    for i in 1..n {
+        let mut k = border[i - 1] as usize;
+        while k > 0 && s[i] != s[k] {
+            k = border[k - 1] as usize;
+        }
+        if s[i] == s[k] {
+            k += 1;
+        }
+        border[i] = k as u32;
+    }
+    let p = n - border[n - 1] as usize;
+    (p < n && p <= maxp).then_some(p)
+}
+
+/// The definition, literally (quadratic): used to cross-check `min_period` in the self-test.
+fn min_period_by_definition<T: PartialEq>(s: &[T], maxp: usize) -> Option<usize> {
+    (1..=maxp.min(s.len().saturating_sub(1))).find(|&p| (0..s.len() - p).all(|i| s[i] == s[i + p]))
+}
+
+/// `draws` consecutive draws of one range from a fresh generator.
+pub fn stream<T: IntTy>(form: Form, a: i128, b: i128, seed: u64, draws: usize) -> Result<Vec<i64>, String> {
     catch(|| {
         let mut rng = Rng::from_seed(seed);
-        (0..draws).map(|_| rng.next(0..len)).collect()
+        (0..draws).map(|_| T::draw(&mut rng, form, a, b) as i64).collect()
     })
 }
 
-pub struct PeriodReport {
-    pub streams: u64,
-    pub periodic: u64,
-    pub first: Option<(usize, u64, String)>, // (len, seed, what)
-    pub periodic_lens: Vec<(usize, u64, usize)>, // (len, number of periodic seeds, smallest period seen)
-    pub distinct_streams: u64,
+pub fn stream_of(ty: &str, form: Form, a: i128, b: i128, seed: u64, draws: usize) -> Result<Vec<i64>, String> {
+    crate::dispatch_ty!(ty, T => stream::<T>(form, a, b, seed, draws)).unwrap_or_else(|| Err(format!("unknown type {ty}")))
 }
 
-pub fn run_period(seeds: u64, draws: usize, maxp: usize) -> PeriodReport {
-    let lens = period_lens();
-    let jobs: Vec<(usize, u64)> = lens.iter().flat_map(|&l| (0..seeds).map(move |s| (l, s))).collect();
+fn show_head(s: &[i64], p: usize) -> String {
+    format!("{:?}...", &s[..(2 * p).min(12).min(s.len())])
+}
+
+pub struct PeriodReport {
+    pub cases: u64,
+    pub streams: u64,
+    pub draws: u64,
+    pub periodic: u64,
+    pub first: Option<(PeriodCase, u64, String)>, // (case, seed, what)
+    pub periodic_cases: Vec<(String, u64, usize)>, // (case label, number of periodic seeds, smallest period seen)
+    pub distinct_streams: u64,
+    pub per_type_form: Vec<(String, u64, u64)>, // ("u8:full", cases, streams)
+    pub full_width_cases: u64,
+    pub long_streams: u64, // streams searched for a period above the tier base
+    pub base_maxp: usize,
+}
+
+pub fn run_period(budget: PeriodBudget) -> PeriodReport {
+    let cases = period_cases(budget);
+    let jobs: Vec<(usize, u64)> = cases.iter().enumerate().flat_map(|(ci, c)| (0..c.seeds).map(move |s| (ci, s))).collect();
     let res: Vec<(Option<String>, Option<usize>, u64)> = jobs
         .par_iter()
-        .map(|&(len, seed)| match small_stream(seed, len, draws) {
-            Err(p) => (Some(format!("panicked: {p}")), None, 0),
-            Ok(s) => {
-                let bytes: Vec<u8> = s.iter().flat_map(|x| (*x as u16).to_le_bytes()).collect();
-                let fp = fnv(&bytes) ^ (len as u64).wrapping_mul(0x9e3779b97f4a7c15);
-                match min_period(&s, maxp) {
-                    Some(p) => (Some(format!("period {p}: {:?}...", &s[..(2 * p).min(12)])), Some(p), fp),
-                    None => (None, None, fp),
+        .map(|&(ci, seed)| {
+            let c = &cases[ci];
+            match stream_of(c.ty, c.form, c.a, c.b, seed, c.draws) {
+                Err(p) => (Some(format!("panicked: {p}")), None, 0),
+                Ok(s) => {
+                    // FNV-style fold over the values (not the bytes), with the case index mixed in
+                    let fp = s.iter().fold(0xcbf29ce484222325u64 ^ ci as u64, |h, &x| (h ^ x as u64).wrapping_mul(0x100000001b3));
+                    match min_period(&s, c.maxp) {
+                        Some(p) => (Some(format!("period {p}: {}", show_head(&s, p))), Some(p), fp),
+                        None => (None, None, fp),
+                    }
                 }
             }
         })
         .collect();
-    let mut rep = PeriodReport { streams: jobs.len() as u64, periodic: 0, first: None, periodic_lens: vec![], distinct_streams: 0 };
+    let mut rep = PeriodReport {
+        cases: cases.len() as u64,
+        streams: jobs.len() as u64,
+        draws: jobs.iter().map(|j| cases[j.0].draws as u64).sum(),
+        periodic: 0,
+        first: None,
+        periodic_cases: vec![],
+        distinct_streams: 0,
+        per_type_form: vec![],
+        full_width_cases: cases.iter().filter(|c| c.n == 1u128 << type_bits(c.ty)).count() as u64,
+        long_streams: jobs.iter().filter(|j| cases[j.0].maxp > budget.maxp).count() as u64,
+        base_maxp: budget.maxp,
+    };
+    for c in &cases {
+        let key = format!("{}:{}", c.ty, c.form.name());
+        match rep.per_type_form.iter_mut().find(|e| e.0 == key) {
+            Some(e) => {
+                e.1 += 1;
+                e.2 += c.seeds;
+            }
+            None => rep.per_type_form.push((key, 1, c.seeds)),
+        }
+    }
+    // distinct streams per case, summed over the cases (the case index is mixed into the fingerprint)
     let mut fps: Vec<u64> = res.iter().map(|r| r.2).collect();
     fps.sort_unstable();
     fps.dedup();
@@ -322,31 +495,63 @@ pub fn run_period(seeds: u64, draws: usize, maxp: usize) -> PeriodReport {
         if let Some(w) = &r.0 {
             rep.periodic += 1;
             if rep.first.is_none() {
-                rep.first = Some((j.0, j.1, w.clone()));
+                rep.first = Some((cases[j.0].clone(), j.1, w.clone()));
             }
             let p = r.1.unwrap_or(0);
-            match rep.periodic_lens.iter_mut().find(|e| e.0 == j.0) {
+            let label = cases[j.0].label();
+            match rep.periodic_cases.iter_mut().find(|e| e.0 == label) {
                 Some(e) => {
                     e.1 += 1;
                     e.2 = e.2.min(p);
                 }
-                None => rep.periodic_lens.push((j.0, 1, p)),
+                None => rep.periodic_cases.push((label, 1, p)),
             }
         }
     }
     rep
 }
 
+fn type_bits(ty: &str) -> u32 {
+    crate::dispatch_ty!(ty, T => <T as IntTy>::BITS).unwrap_or(0)
+}
+
+pub fn period_violation(c: &PeriodCase, seed: u64, what: &str, rep: &PeriodReport) -> Violation {
+    let labels: Vec<&str> = rep.periodic_cases.iter().take(24).map(|e| e.0.as_str()).collect();
+    Violation::new(
+        format!("small_range_not_periodic:{}:seed={seed}", c.label()),
+        format!(
+            "the {}-draw stream of {} from Rng::from_seed({seed}) has {what}; {} of {} streams are periodic (period <= max(value count, {})), in {} cases: {labels:?}{}",
+            c.draws,
+            c.call(),
+            rep.periodic,
+            rep.streams,
+            rep.base_maxp,
+            rep.periodic_cases.len(),
+            if rep.periodic_cases.len() > labels.len() { " ..." } else { "" }
+        ),
+        json!({"family": "small_range_not_periodic", "type": c.ty, "form": c.form.name(), "a": c.a.to_string(), "b": c.b.to_string(),
+               "seed": seed.to_string(), "draws": c.draws, "max_period": c.maxp}),
+    )
+}
+
 pub fn confirm_period(v: &Value) -> Result<(), String> {
-    let len = v["len"].as_u64().unwrap_or(2) as usize;
     let seed: u64 = v["seed"].as_str().unwrap_or("0").parse().map_err(|_| "bad seed")?;
     let draws = v["draws"].as_u64().unwrap_or(4096) as usize;
     let maxp = v["max_period"].as_u64().unwrap_or(1024) as usize;
-    match small_stream(seed, len, draws) {
-        Err(p) => Err(format!("next(0..{len}) from seed {seed} panicked: {p}")),
+    // replay files written before the family covered every range form carry only `len` (usize 0..len)
+    let (ty, form, a, b) = match v["type"].as_str() {
+        Some(ty) => {
+            let p = |x: &Value| x.as_str().and_then(|s| s.parse::<i128>().ok()).unwrap_or(0);
+            (ty.to_string(), Form::parse(v["form"].as_str().unwrap_or("")).ok_or("bad form")?, p(&v["a"]), p(&v["b"]))
+        }
+        None => ("usize".to_string(), Form::Range, 0, v["len"].as_u64().unwrap_or(2) as i128),
+    };
+    let call = format!("next::<{ty}, _>({})", form.show(a, b));
+    match stream_of(&ty, form, a, b, seed, draws) {
+        Err(p) => Err(format!("{call} from seed {seed} panicked: {p}")),
         Ok(s) => match min_period(&s, maxp) {
             None => Ok(()),
-            Some(p) => Err(format!("the {draws}-draw stream of next(0..{len}) from Rng::from_seed({seed}) is periodic with period {p} (s[i] == s[i+{p}] for all i): {:?}...", &s[..(2 * p).min(12)])),
+            Some(p) => Err(format!("the {draws}-draw stream of {call} from Rng::from_seed({seed}) is periodic with period {p} (s[i] == s[i+{p}] for all i): {}", show_head(&s, p))),
         },
     }
 }
@@ -361,17 +566,21 @@ pub fn period_detector_selftest() -> Result<(), String> {
     if min_period(&cyc, 1024) != Some(1024) {
         return Err("the period detector does not find period 1024 in a synthetic stream".into());
     }
+    // a 16-bit counter: period 65536 in 3 * 65536 values, and no shorter one
+    let cnt: Vec<i64> = (0..3 * 65536i64).map(|i| (i * 40503 + 7) % 65536 - 32768).collect();
+    if min_period(&cnt, 65536) != Some(65536) || min_period(&cnt, 65535).is_some() {
+        return Err("the period detector does not find period 65536 (and only that) in a synthetic 16-bit counter".into());
+    }
     // an aperiodic reference stream: splitmix64 written here
     let mut x: u64 = 1;
-    let aper: Vec<usize> = (0..4096)
-        .map(|_| {
-            x = x.wrapping_add(0x9e3779b97f4a7c15);
-            let mut z = x;
-            z = (z ^ (z >> 30)).wrapping_mul(0xbf58476d1ce4e5b9);
-            z = (z ^ (z >> 27)).wrapping_mul(0x94d049bb133111eb);
-            ((z ^ (z >> 31)) % 2) as usize
-        })
-        .collect();
+    let mut splitmix = move || {
+        x = x.wrapping_add(0x9e3779b97f4a7c15);
+        let mut z = x;
+        z = (z ^ (z >> 30)).wrapping_mul(0xbf58476d1ce4e5b9);
+        z = (z ^ (z >> 27)).wrapping_mul(0x94d049bb133111eb);
+        z ^ (z >> 31)
+    };
+    let aper: Vec<usize> = (0..4096).map(|_| (splitmix() % 2) as usize).collect();
     if min_period(&aper, 1024).is_some() {
         return Err("the period detector reports a period in a splitmix64 bit stream".into());
     }
@@ -380,6 +589,29 @@ pub fn period_detector_selftest() -> Result<(), String> {
     almost[4095] = 0;
     if min_period(&almost, 1024).is_some() {
         return Err("the period detector ignores a mismatch in the last draw".into());
+    }
+    // the linear search agrees with the definition on every sequence of a small exhaustive family
+    // (all words of length <= 10 over {0,1,2}) and on periodic words with a defect
+    for len in 2..=10usize {
+        for code in 0..3usize.pow(len as u32) {
+            let w: Vec<usize> = (0..len).map(|i| code / 3usize.pow(i as u32) % 3).collect();
+            for maxp in [1, 2, len / 2, len] {
+                if min_period(&w, maxp) != min_period_by_definition(&w, maxp) {
+                    return Err(format!("the linear period search disagrees with the definition on {w:?} (max period {maxp})"));
+                }
+            }
+        }
+    }
+    for p in [1usize, 3, 8, 100] {
+        for defect in [None, Some(0usize), Some(511), Some(1023)] {
+            let mut w: Vec<u64> = (0..1024).map(|i| (i % p) as u64 * 7 % 5).collect();
+            if let Some(d) = defect {
+                w[d] = 99;
+            }
+            if min_period(&w, 512) != min_period_by_definition(&w, 512) {
+                return Err(format!("the linear period search disagrees with the definition on a period-{p} word with defect {defect:?}"));
+            }
+        }
     }
     Ok(())
 }
